@@ -6,7 +6,7 @@ import (
 )
 
 // D18: System.storage is created lazily by ensureStorage with no lock held: concurrent first requests race on it.
-func TestRaceD18EnsureStorage(t *testing.T) {
+func TestFixedRaceD18EnsureStorage(t *testing.T) {
 	ctx, sys, _ := replaySystem(t, false)
 	_ = ctx
 	var wg sync.WaitGroup
